@@ -233,6 +233,11 @@ func (api *HTTP) DispatchPrivateWithoutAuth(w http.ResponseWriter, r *http.Reque
 
 	switch r.Method {
 	case http.MethodGet:
+		if strings.HasPrefix(r.URL.Path, "/debug/pprof/") {
+			// net/http/pprof registers its handlers on the default mux.
+			http.DefaultServeMux.ServeHTTP(w, r)
+			return
+		}
 		switch r.URL.Path {
 		case "/":
 			fallthrough
